@@ -621,8 +621,8 @@ pub fn gen_scn(d: &Data, r: &mut Rng, faulty: bool) -> Scn {
             } else if r.chance(1, 6) {
                 format!("gen{k}.v2.{ext}")
             } else if r.chance(1, 12) {
-                // no extension at all (refused), possibly next to an existing gen<k>.<ext>
-                format!("gen{k}")
+                // no extension at all (refused), preferably next to an existing gen1.<ext>
+                format!("gen{}", if out_counter > 1 { 1 } else { k })
             } else {
                 format!("gen{k}.{ext}")
             }
@@ -742,14 +742,25 @@ pub fn gen_scn(d: &Data, r: &mut Rng, faulty: bool) -> Scn {
             }
         };
         let fault_seed = r.next_u64();
+        // an extension-less target is judged only when every answer declines (Target::Refuse in
+        // c19.rs): make that the usual case, without drawing anything new
+        let extless = !dir_target && {
+            let outs: Vec<&Option<String>> = match &cmd {
+                Cmd::Run { output, .. } | Cmd::ConvAsca { output, .. } => vec![output],
+                Cmd::ConvJson { words, rules, alias, .. } => vec![words, rules, alias],
+                Cmd::Edit { .. } => vec![],
+            };
+            outs.iter().any(|o| o.as_ref().map(|p| !p.rsplit('/').next().unwrap_or("").contains('.')).unwrap_or(false))
+        };
+        let drawn_answers = if dir_target {
+            if r.chance(1, 2) { vec!["y".into(), "y".into()] } else { vec!["n".into(), "n".into()] }
+        } else {
+            answers(r)
+        };
         invs.push(Inv {
             cmd,
             cwd,
-            answers: if dir_target {
-                if r.chance(1, 2) { vec!["y".into(), "y".into()] } else { vec!["n".into(), "n".into()] }
-            } else {
-                answers(r)
-            },
+            answers: if extless && (fault_seed >> 13) % 3 != 0 { vec![if (fault_seed >> 17) & 1 == 0 { "n".to_string() } else { String::new() }] } else { drawn_answers },
             detrand: r.next_u64() | 1,
             dirseed: if faulty || r.chance(1, 2) { r.next_u64() | 1 } else { 0 },
             class,
